@@ -281,7 +281,7 @@ Record G1 (s : st) : Prop := mk_g1 {
   i_arm : uring (c s) = true ->
     karmed (d s) = true \/ sqarm (d s) = true \/ need_push (d s) = true \/
     In CFinal (cq (d s)) \/ In CFinal (todo (r s));
-  i_hot : h_pc (pc (r s)) = true -> rem (r s) = false -> hot (e s) = [];
+  i_hot : h_pc (pc (r s)) = true -> rem (r s) = false -> hot (e s) = [] \/ ob (reg_main s) s;
   i_wait : pc (r s) = RWait -> nw (r s) = true /\ rem (r s) = false /\ ext (c s) = false;
   i_ext : ext_pc (pc (r s)) = true -> ext (c s) = true;
   i_drained : drained (r s) <> 0 -> pc (r s) = RDrainPop \/ pc (r s) = RDrainSub
@@ -463,6 +463,14 @@ Ltac lfin :=
   try discriminate; try congruence; auto;
   try solve [intuition (try discriminate; try congruence; auto)].
 
+Ltac obfin X :=
+  red_all; cbn [negb] in *;
+  try exact I; try exact X;
+  try (rewrite X; cbn [negb]; auto; fail);
+  try (destruct X as [X|X]; [left; exact X|right; exact X]; fail);
+  try (destruct X as [X|X]; rewrite ?X; cbn [negb]; auto; fail);
+  lfin.
+
 Lemma g1_rt_idle_flag s s' :
   (reg_main s = Idle -> fl_idle (flag (d s)) = true \/ has_notified (flag (d s)) = true) ->
   rt_step current s = Some s' ->
@@ -504,11 +512,16 @@ Proof.
 Qed.
 
 Lemma g1_rt_hot s s' :
-  (h_pc (pc (r s)) = true -> rem (r s) = false -> hot (e s) = []) ->
+  (ext_pc (pc (r s)) = true -> ext (c s) = true) ->
+  (h_pc (pc (r s)) = true -> rem (r s) = false -> hot (e s) = [] \/ ob (reg_main s) s) ->
   rt_step current s = Some s' ->
-  (h_pc (pc (r s')) = true -> rem (r s') = false -> hot (e s') = []).
+  (h_pc (pc (r s')) = true -> rem (r s') = false -> hot (e s') = [] \/ ob (reg_main s') s').
 Proof.
-  intros H Hs. dst s. destruct ex, ur; rt_cases Hs; lfin.
+  intros Hx H Hs. dst s. destruct ex, ur; rt_cases Hs; intros Hh Hr; try discriminate Hh;
+    try (left; reflexivity);
+    try (specialize (Hx eq_refl); discriminate Hx);
+    try (destruct (H eq_refl Hr) as [He|Ho]; [left; exact He|right; obfin Ho]);
+    lfin.
 Qed.
 
 Lemma g1_rt_ext s s' :
@@ -558,14 +571,6 @@ Lemma consume_main_tgt w : tgt (consume_main w) = tgt w.
 Proof. unfold consume_main. destruct (tgt w) eqn:E; [exact E|]. destruct (main_effective (wp w)); cbn [tgt w_seen]; exact E. Qed.
 Lemma consume_task_tgt t w : tgt (consume_task t w) = tgt w.
 Proof. unfold consume_task. destruct (tgt w) eqn:E; [|exact E]. destruct (_ && _); cbn [tgt w_seen]; exact E. Qed.
-
-Ltac obfin X :=
-  red_all; cbn [negb] in *;
-  try exact I; try exact X;
-  try (rewrite X; cbn [negb]; auto; fail);
-  try (destruct X as [X|X]; [left; exact X|right; exact X]; fail);
-  try (destruct X as [X|X]; rewrite ?X; cbn [negb]; auto; fail);
-  lfin.
 
 Lemma consume_main_seen w :
   tgt w = None -> main_effective (wp w) = true -> seen (consume_main w) = true.
@@ -789,18 +794,31 @@ Proof.
     inv_some Hs. eapply g3_frame; [| | | |exact H3]; reflexivity.
 Qed.
 
-Lemma inv_local s t s' : Inv s -> rt_local t s = Some s' -> Inv s'.
+Lemma inv_local s t s' : Inv s -> rt_local current t s = Some s' -> Inv s'.
 Proof.
-  intros [H1 H2 H3] Hs. unfold rt_local, local_notify in Hs.
+  intros [H1 H2 H3] Hs. unfold rt_local, local_notify, local_point in Hs.
+  cbn [v_local_wakes current] in Hs.
   constructor.
   - dg1 H1. dst s. red_all.
-    destruct p; try discriminate; destruct (Nat.ltb t (length sc)); try discriminate;
-      destruct (fl_idle fl); inv_some Hs; constructor; red_all; cbn [np_pc h_pc ext_pc] in *; lfin.
+    destruct p; cbn [andb] in Hs; try discriminate; try (destruct ex; cbn [andb] in Hs; try discriminate);
+      destruct (Nat.ltb t (length sc)); try discriminate;
+      destruct (fl_idle fl) eqn:Hidle; inv_some Hs; constructor; red_all; cbn [np_pc h_pc ext_pc] in *;
+      try (intros; right; apply hn_wake);
+      try (intros _ _; left; unfold notify_efd; destruct ur; lia);
+      try (intros _ _; right; apply hn_wake);
+      try (intros _ _; right; right; apply hn_wake);
+      lfin.
+    all: try (left; unfold notify_efd; cbn [uring]; destruct ur; lia).
+    all: try (destruct I_idle as [Hx|Hx]; [congruence|];
+              destruct (I_efd Hx) as [He|He]; [left; exact He|right; exact He]).
   - dg2 H2. dst s. red_all.
-    destruct p; try discriminate; destruct (Nat.ltb t (length sc)); try discriminate;
-      destruct (fl_idle fl); inv_some Hs; constructor; red_all; intros; try exact I; apply hn_wake.
+    destruct p; cbn [andb] in Hs; try discriminate; try (destruct ex; cbn [andb] in Hs; try discriminate);
+      destruct (Nat.ltb t (length sc)); try discriminate;
+      destruct (fl_idle fl); inv_some Hs; constructor; red_all; intros; try exact I;
+      try (right; apply hn_wake); apply hn_wake.
   - dg3 H3. dst s. red_all.
-    destruct p; try discriminate; destruct (Nat.ltb t (length sc)); try discriminate;
+    destruct p; cbn [andb] in Hs; try discriminate; try (destruct ex; cbn [andb] in Hs; try discriminate);
+      destruct (Nat.ltb t (length sc)); try discriminate;
       destruct (fl_idle fl); inv_some Hs; constructor; red_all; auto;
       intros t' Hs; destruct (I_sched t' Hs) as [Hh|Hr]; auto using in_make_hot_keep.
 Qed.
@@ -1064,6 +1082,7 @@ Lemma g1_w_frame s s' :
   c s' = c s -> r s' = r s -> hot (e s') = hot (e s) ->
   sqarm (d s') = sqarm (d s) -> need_push (d s') = need_push (d s) ->
   karmed (d s') = karmed (d s) -> cq (d s') = cq (d s) ->
+  (flag (d s') = flag (d s) \/ flag (d s') = fl_wake (flag (d s))) ->
   (fl_idle (flag (d s)) = true \/ has_notified (flag (d s)) = true ->
    fl_idle (flag (d s')) = true \/ has_notified (flag (d s')) = true) ->
   ((has_notified (flag (d s)) = true -> 0 < efd (d s) \/ writers s = true) ->
@@ -1071,9 +1090,12 @@ Lemma g1_w_frame s s' :
    has_notified (flag (d s')) = true -> 0 < efd (d s') \/ writers s' = true) ->
   G1 s -> G1 s'.
 Proof.
-  intros Hc Hr Hh Hsq Hne Hka Hcq Hfa Hfb H. dg1 H.
+  intros Hc Hr Hh Hsq Hne Hka Hcq Hfl Hfa Hfb H. dg1 H.
   pose proof (reg_main_eq s s' Hc Hr) as Hreg.
   constructor; rewrite ?Hreg, ?Hc, ?Hr, ?Hh, ?Hsq, ?Hne, ?Hka, ?Hcq; auto.
+  intros Hp Hrm. rewrite <- Hr in Hp, Hrm. rewrite Hr in Hp, Hrm.
+  destruct (I_hot Hp Hrm) as [He|Ho]; [left; exact He|right].
+  eapply ob_mono; [rewrite Hc; reflexivity|exact Hr|exact Hfl|exact Ho].
 Qed.
 
 Lemma g2_w_frame s s' i w w1 :
@@ -1129,6 +1151,7 @@ Lemma g1_w_same s s' i w w1 :
 Proof.
   intros Hc Hr Hd Hh Hn Hw Hnw H.
   apply (g1_w_frame s s'); auto; try (rewrite Hd; reflexivity).
+  - left. rewrite Hd. reflexivity.
   - rewrite Hd. auto.
   - rewrite Hd. intros IH _ Hno. destruct (IH Hno) as [He|He]; [left; exact He|right].
     unfold writers in *. rewrite Hw. eapply writers_keep; eauto.
@@ -1174,6 +1197,7 @@ Proof.
   set (nx := if fl_idle f then WWrite k else after k).
   constructor.
   - eapply (g1_w_frame s); refl_all.
+    + right. reflexivity.
     + intros _. right. cbn [flag d set_w s_wk s_d d_flag]. apply hn_wake.
     + intros IH Hor _. change (flag (d s)) with f in IH, Hor.
       destruct (fl_idle f) eqn:Hidle.
@@ -1198,7 +1222,7 @@ Proof.
   intros [H1 H2 H3] Hn Hwp.
   pose proof (i_shape _ H3 i w Hn) as Hsh. rewrite Hwp in Hsh.
   constructor.
-  - eapply (g1_w_frame s); refl_all; auto.
+  - eapply (g1_w_frame s); refl_all; auto; try (left; reflexivity).
     intros _ _ _. left. cbn. unfold notify_efd. destruct (uring (c s)); lia.
   - eapply (g2_w_frame s _ i w (w_wp (after k) w)); refl_all; eauto;
       try (left; reflexivity); intros; rewrite ?Hwp in *;
@@ -1344,7 +1368,7 @@ Definition progress (s : st) : bool := ready s || knotify_enabled s || some_in_f
 Lemma wait_facts s :
   Inv s -> at_wait s = true ->
   reg_main s = Idle /\ reg_drain s = Idle /\ nw (r s) = true /\ rem (r s) = false /\
-  hot (e s) = [] /\ (uring (c s) = true -> karmed (d s) = true \/ In CFinal (cq (d s))).
+  (hot (e s) = [] \/ ob Idle s) /\ (uring (c s) = true -> karmed (d s) = true \/ In CFinal (cq (d s))).
 Proof.
   intros [H1 _ _] Hw. dg1 H1. dst s. unfold at_wait in Hw. red_all.
   destruct p; try discriminate; cbn [np_pc h_pc ext_pc] in *.
@@ -1447,7 +1471,7 @@ Proof.
       assert (Hsc : nth_error (sched (e s)) t = Some true).
       { eapply (i_seen _ H3 i w t); eauto. rewrite Hwp. reflexivity. }
       destruct (i_sched _ H3 t Hsc) as [Hh|[(j & Hin)|Hpu]].
-      + rewrite Hhot in Hh. destruct Hh.
+      + destruct Hhot as [Hhot|Hob]; [rewrite Hhot in Hh; destruct Hh|apply ob_idle_progress; auto].
       + eapply queue_progress; eauto.
       + unfold pushing in Hpu. apply existsb_nth_inv in Hpu. destruct Hpu as (j & w' & Hn' & Hf').
         unfold pushing_w in Hf'. destruct (tgt w') as [t'|] eqn:Htg'; [|discriminate].
@@ -1562,15 +1586,28 @@ Qed.
 
 (* a queued id makes drain_sync take the slow path; the wait is never entered
    with a hot task *)
+(* a hot task never sleeps: if the runtime is at its wait with a hot task (in
+   external-loop mode a task can be woken on the runtime's own thread after the
+   flush), the wait is about to end *)
+Theorem hot_never_sleeps s :
+  Inv s -> at_wait s = true -> hot (e s) <> [] -> stuck s = false.
+Proof.
+  intros Hi Hw Hh. destruct (wait_facts s Hi Hw) as (_ & _ & _ & _ & [Hx|Hob] & _); [contradiction|].
+  pose proof (ob_idle_progress s Hi Hw Hob) as Hp.
+  unfold stuck. rewrite Hw. unfold progress in Hp. apply orb_prop in Hp. destruct Hp as [Hp|Hp].
+  - apply orb_prop in Hp. destruct Hp as [-> | ->]; cbn; rewrite ?andb_false_r; reflexivity.
+  - rewrite Hp. cbn. rewrite ?andb_false_r. reflexivity.
+Qed.
+
 Theorem bounded_drain s :
   Inv s ->
   (queue (e s) <> [] -> pending (e s) <> 0) /\
-  (at_wait s = true -> hot (e s) = []).
+  (at_wait s = true -> hot (e s) <> [] -> stuck s = false).
 Proof.
   intros Hi. split.
   - pose proof Hi as [_ _ H3]. pose proof (i_pending _ H3) as Hp.
     destruct (queue (e s)); [congruence|]. cbn [length] in Hp. lia.
-  - intros Hw. destruct (wait_facts s Hi Hw) as (_ & _ & _ & _ & Hh & _). exact Hh.
+  - apply hot_never_sleeps. exact Hi.
 Qed.
 
 (* ---------------------------------------------------------------------- *)
@@ -1637,9 +1674,8 @@ Proof.
   - unfold rt_timeout, return_ok in Hs. dst s. red_all.
     destruct p; try discriminate; destruct ur; inv_some Hs; auto.
   - dst s. red_all. destruct p; try discriminate. destruct ur; try discriminate. inv_some Hs. auto.
-  - unfold rt_local, local_notify in Hs. dst s. red_all.
-    destruct p; try discriminate; destruct (Nat.ltb t (length sc)); try discriminate;
-      destruct (fl_idle fl); inv_some Hs; auto.
+  - unfold rt_local, local_notify in Hs. cbn [v_local_wakes current] in Hs. dst s. red_all.
+    destruct (_ && _); [|discriminate]. destruct (fl_idle fl); inv_some Hs; auto.
   - destruct (_ && _); [|discriminate]. inv_some Hs. auto.
   - inv_some Hs. auto.
   - destruct (_ && _); [|discriminate]. inv_some Hs. auto.
@@ -1681,6 +1717,21 @@ Lemma spin_wake_refuted :
             pc (r s) = RWait /\ queue (e s) = [(1, 1)] /\ flag (d s) = AWAKE_IDLE.
 Proof. eexists. split; [vm_compute; reflexivity|]. repeat split; vm_compute; reflexivity. Qed.
 
+(* hypothetical variant: a wake on the runtime's own thread that does not wake
+   the driver.  External loop: run, flush, then a host-loop callback wakes task 0
+   before the loop sleeps on the descriptor: runnable task, sleeping loop. *)
+Definition host_witness : list label := reps 7 LR ++ [LLocal 0].
+
+Lemma local_wake_refuted :
+  exists s, steps_v no_local_wake (init flush_cfg 1 []) host_witness = Some s /\
+            at_wait s = true /\ hot (e s) = [0] /\ stuck s = true.
+Proof. eexists. split; [vm_compute; reflexivity|]. repeat split; vm_compute; reflexivity. Qed.
+
+Lemma local_wake_ok :
+  exists s, steps (init flush_cfg 1 []) host_witness = Some s /\
+            at_wait s = true /\ hot (e s) = [0] /\ stuck s = false /\ knotify_enabled s = true.
+Proof. eexists. split; [vm_compute; reflexivity|]. repeat split; vm_compute; reflexivity. Qed.
+
 Lemma spin_wake_ok :
   exists s, steps (init spin_cfg 2 [Some 0; Some 1]) spin_witness = Some s /\
             at_wait s = true /\ stuck s = false /\ queue (e s) = [(1, 1)] /\
@@ -1701,8 +1752,8 @@ Proof.
       destruct (uring (c s)); inversion E; reflexivity.
   - destruct (pc (r s)); try discriminate. destruct (uring (c s)); [discriminate|].
     inversion E; reflexivity.
-  - unfold rt_local, local_notify in E. destruct (pc (r s)); try discriminate;
-      destruct (Nat.ltb _ _); try discriminate; destruct (fl_idle _); inversion E; reflexivity.
+  - unfold rt_local, local_notify in E. cbn [v_local_wakes current] in E.
+    destruct (_ && _); [|discriminate]. destruct (fl_idle _); inversion E; reflexivity.
   - destruct (_ && _); [|discriminate]. inversion E; reflexivity.
   - inversion E; reflexivity.
   - destruct (_ && _); [|discriminate]. inversion E; reflexivity.
@@ -1725,3 +1776,8 @@ Proof.
   assert (Hc : c s = cf) by (rewrite (steps_cfg _ _ _ Hs); reflexivity).
   apply no_lost_wake; [rewrite Hc; exact Hq|eapply reachable_inv; eauto|exact Ho].
 Qed.
+
+Theorem hot_never_sleeps_reach cf n tg ls s :
+  targets_ok n tg -> steps (init cf n tg) ls = Some s ->
+  at_wait s = true -> hot (e s) <> [] -> stuck s = false.
+Proof. intros Hok Hs. apply hot_never_sleeps. eapply reachable_inv; eauto. Qed.
